@@ -237,7 +237,6 @@ func NewStack(opts StackOpts) (*Stack, error) {
 
 func (s *Stack) start() error {
 	ctx, cancel := context.WithCancel(context.Background())
-	_ = ctx
 	s.cancel = cancel
 	bg := context.Background()
 	opts := s.Opts
@@ -293,9 +292,10 @@ func (s *Stack) start() error {
 		s.Locker = opts.WrapLocker(lck)
 	}
 
-	// The rules service closes its store when its context is cancelled; the harness closes it
-	// explicitly instead (Close), so it is given a context that is never cancelled.
-	rl, err := standardrules.New(bg,
+	// The rules service starts a goroutine that closes the store when its context is cancelled.  The
+	// harness closes the store explicitly (StopRules) and cancels the context afterwards, which lets
+	// that goroutine finish (its second Close is a no-op) instead of pinning the closed database.
+	rl, err := standardrules.New(ctx,
 		standardrules.WithStoragePath(s.Dir),
 		standardrules.WithAdminIPs(opts.AdminIPs),
 	)
@@ -402,6 +402,10 @@ func (s *Stack) StopRules() error {
 	}
 	err := s.RawRules.Close(context.Background())
 	s.RawRules = nil
+	if s.cancel != nil {
+		s.cancel()
+		s.cancel = nil
+	}
 
 	return err
 }
